@@ -193,7 +193,12 @@ void harness(void)
 #elif OP == OP_ARRAY_SET
 	{
 	int with_src = V_IN_BOOL("with_src");
+#ifdef POS_EL
+	/* offset from the case split; sign symbolic (negative = relative to the end) */
+	long off = V_IN_BOOL("neg") ? -(long) POS_EL : (long) POS_EL;
+#else
 	long off = (long) V_IN_RANGE("off", 0, 8) - 3;
+#endif
 	void *p;
 	if (with_src) V_ASSUME(len <= 2 * ES);
 	p = mpt_array_set(&arr, &h_traits, len, with_src ? (const void *) srcel : (const void *) 0, off);
